@@ -536,11 +536,24 @@ class Chopper:
         tpulse = 1.0 / pulse_frequency
         topen = disk_chopper.time_offset_open(pulse_frequency=pulse_frequency)
         tclose = disk_chopper.time_offset_close(pulse_frequency=pulse_frequency)
-        offsets = sc.arange('pulse', npulses) * tpulse
+        # topen and tclose span one pulse, or one rotation if the chopper is slower
+        # than the source (it then skips pulses). They repeat with that period.
+        trotation = (1.0 / abs(disk_chopper.frequency)).to(unit=tpulse.unit)
+        period = trotation if (trotation > tpulse).value else tpulse
+        nperiods = int(np.ceil((npulses * tpulse / period).value - 1e-9))
+        offsets = sc.arange('pulse', 1, nperiods) * period
+        # They begin with the rotation that finishes when the period begins.
+        # That is the last rotation of the preceding period, do not repeat it.
+        n_slits = max(disk_chopper.slit_begin.values.size, 1)
+
+        def repeat(t: sc.Variable) -> sc.Variable:
+            later = (offsets.to(unit=t.unit) + t[t.dim, n_slits:]).flatten(to=t.dim)
+            return sc.concat([t, later], t.dim)
+
         return cls(
             distance=sc.norm(disk_chopper.axle_position),
-            time_open=(offsets + topen).flatten(to=topen.dim),
-            time_close=(offsets + tclose).flatten(to=tclose.dim),
+            time_open=repeat(topen),
+            time_close=repeat(tclose),
         )
 
 
